@@ -56,7 +56,7 @@ CHECKS["C10"] = dict(
     note="Fields refreshed on rewrite (free/total block counts, parity paths in Q records) are compared modulo exactly those; hash sizes other than 2/4/8/16 exist only in the model.")
 CHECKS["C14"] = dict(
     cat="model_checking", design="6/C14",
-    technique="guards of Sync in Array.tla (empty/rewritten disk, zero-size file, short parity) validated by TLC on traces of real refused and overridden syncs; configuration guards and the lock as Refused steps of ArrayTrace.tla with digests before/after; second command started while the first is SIGSTOPped by the shim",
+    technique="Lock.tla (flock on a path fixed by the configuration: mutual exclusion over all interleavings of commands, saves and lost content copies) checked by TLC; guards of Sync in Array.tla (empty/rewritten disk, zero-size file, short parity) validated by TLC on traces of real refused and overridden syncs; configuration guards and the lock as Refused steps of ArrayTrace.tla with digests before/after; second command started while the first is SIGSTOPped by the shim",
     text="Each history applies every trigger on some disk/level with or without other pending changes, alone and with the overrides of the OTHER interlocks; TLC checks that the specification's Sync refuses exactly when the binary does, that a refusal changes neither content nor parity (missing = empty parity file), and that the override lets the same sync proceed; the lock is exercised by stopping a running command at a random system call (also a sync started while the first content copy is lost) and starting every other command, and by a second flow in which a command that has ended (stopped just before it would unlink the lock file, if it did) overlaps a running lock holder. What the property demands (r.must of SyncResult) is evaluated separately from what the code does, so that an interlock the code does not apply is a violation: arrays with format-3 content exhibit finding F12 (lost parity not refused), reported by signature.",
     note="Abstractions of Array.tla; the lock is observed at process level (flock), start offsets sampled.")
 
